@@ -713,3 +713,77 @@ Theorem series_padded cells gs :
 Proof.
   split; [apply series_rows|]. split; [apply series_row_length|]. split; [apply max_len_ge | apply max_len_attained].
 Qed.
+
+(* ====================================================================== *)
+(* `unique` is ordered: numbers by value with NaN last, text by code point, mixed columns by text *)
+
+Lemma insert_by_sorted_in {K} (le : K -> K -> bool) (P : K -> Prop)
+      (tot : forall a b, P a -> P b -> le a b = true \/ le b a = true) x l :
+  P x -> Forall P l ->
+  LocallySorted (fun a b => le a b = true) l -> LocallySorted (fun a b => le a b = true) (insert_by le x l).
+Proof.
+  intros Px Pl. induction 1 as [|a|a b l Hl IH Hab]; simpl.
+  - constructor.
+  - inversion Pl; subst. destruct (le x a) eqn:E; repeat constructor; auto. destruct (tot x a); auto; congruence.
+  - inversion Pl as [|? ? Pa Pl']; subst. simpl in IH. destruct (le x a) eqn:E.
+    + repeat constructor; auto.
+    + destruct (le x b) eqn:E2.
+      * constructor; [constructor; auto|]. destruct (tot x a); auto; congruence.
+      * constructor; auto.
+Qed.
+Lemma insert_by_forall {K} (le : K -> K -> bool) (P : K -> Prop) x l : P x -> Forall P l -> Forall P (insert_by le x l).
+Proof.
+  intros Px. induction 1; simpl; [repeat constructor; auto|]. destruct (le x x0); repeat constructor; auto.
+Qed.
+Lemma isort_sorted_in {K} (le : K -> K -> bool) (P : K -> Prop)
+      (tot : forall a b, P a -> P b -> le a b = true \/ le b a = true) l :
+  Forall P l -> LocallySorted (fun a b => le a b = true) (isort le l) /\ Forall P (isort le l).
+Proof.
+  induction 1 as [|x l Px Pl [IH1 IH2]]; simpl; [split; constructor|]. split.
+  - apply (insert_by_sorted_in le P tot); auto.
+  - apply insert_by_forall; auto.
+Qed.
+
+Lemma dy_cmp_antisym p q : dy_cmp q p = CompOpp (dy_cmp p q).
+Proof. destruct p as [m1 e1], q as [m2 e2]. unfold dy_cmp. rewrite (Z.min_comm e2 e1). apply Z.compare_antisym. Qed.
+Lemma num_cmp_antisym x y :
+  num_cmp y x = match num_cmp x y with Some c => Some (CompOpp c) | None => None end.
+Proof.
+  destruct x as [z|[|s|s|s m e]], y as [z'|[|s'|s'|s' m' e']]; unfold num_cmp; cbn [fl_dy];
+    try reflexivity; try (rewrite dy_cmp_antisym; reflexivity);
+    try (destruct s; reflexivity); try (destruct s'; reflexivity); try (destruct s, s'; reflexivity).
+Qed.
+Lemma num_cmp_none x y : num_cmp x y = None -> x = NFlt FNan \/ y = NFlt FNan.
+Proof.
+  destruct x as [z|[|s|s|s m e]], y as [z'|[|s'|s'|s' m' e']]; unfold num_cmp; cbn [fl_dy]; auto; discriminate.
+Qed.
+
+Lemma num_le_total a b : is_num a = true -> is_num b = true -> num_le a b = true \/ num_le b a = true.
+Proof.
+  unfold is_num, num_le. destruct (val_num a) as [x|] eqn:Ea; [|discriminate].
+  destruct (val_num b) as [y|] eqn:Eb; [|discriminate]. intros _ _.
+  destruct (is_nan b) eqn:Nb; [left; reflexivity|]. destruct (is_nan a) eqn:Na; [right; reflexivity|]. simpl.
+  unfold num_leb. rewrite (num_cmp_antisym x y). destruct (num_cmp x y) as [[]|] eqn:E; simpl; auto.
+  exfalso. apply num_cmp_none in E. destruct E; subst.
+  - destruct a as [|[]| |]; simpl in *; try discriminate; inversion Ea.
+  - destruct b as [|[]| |]; simpl in *; try discriminate; inversion Eb.
+Qed.
+Lemma str_leb_total s t : str_leb s t = true \/ str_leb t s = true.
+Proof.
+  unfold str_leb. rewrite (String.compare_antisym s t). destruct (String.compare t s); simpl; auto.
+Qed.
+Lemma str_le_total a b : str_le a b = true \/ str_le b a = true.
+Proof. destruct a, b; simpl; auto. apply str_leb_total. Qed.
+Lemma text_le_total a b : text_le a b = true \/ text_le b a = true.
+Proof. unfold text_le. destruct (text_key a), (text_key b); auto. apply str_leb_total. Qed.
+
+Theorem unique_sorted cells :
+  LocallySorted (fun a b => unique_le (distinct key_eq cells) a b = true) (unique cells).
+Proof.
+  unfold unique. set (d := distinct key_eq cells). unfold unique_le.
+  destruct (forallb is_num d) eqn:En.
+  - apply (isort_sorted_in num_le (fun v => is_num v = true)).
+    + intros a b Ha Hb. apply num_le_total; auto.
+    + apply Forall_forall. apply forallb_forall. exact En.
+  - destruct (forallb is_str d); apply isort_sorted; [apply str_le_total | apply text_le_total].
+Qed.
